@@ -336,6 +336,10 @@ func execC06(sc *scenario) (*stats.Case, error) {
 			target = ext
 		}
 		if len(blocks) > 0 {
+			// an announcement needs a connection to be announced on (the service reconnects after a drop)
+			for d := time.Now().Add(5 * time.Second); !node.Ready() && time.Now().Before(d); {
+				time.Sleep(2 * time.Millisecond)
+			}
 			node.Mine(blocks, true)
 		}
 	}
@@ -359,7 +363,16 @@ func execC06(sc *scenario) (*stats.Case, error) {
 					idle = false
 				}
 			}
-			if idle && (converged() || time.Since(start) > 400*time.Millisecond) {
+			// the network counts as quiet only once the service has connected to every node (legacy: DNS seeding,
+			// dialling and the handshakes take a while on a loaded machine)
+			connected := true
+			for _, n := range sc.nodes {
+				connected = connected && n.Ready()
+			}
+			if p.Engine == "exp" {
+				connected = true
+			}
+			if idle && connected && (converged() || time.Since(start) > 400*time.Millisecond) {
 				return
 			}
 			time.Sleep(3 * time.Millisecond)
